@@ -100,6 +100,10 @@ def parse_docstring(docstring: str,
         r"(:py)?:(mod|func|data|const|class|meth|attr|exc|obj):", "", docstring
     )
 
+    # docutils splits the text with str.splitlines(): apart from '\n' that breaks lines at these
+    # characters, which are not line ends for Python; all line numbers after them would be off.
+    docstring = re.sub('[\x1c\x1d\x1e\x85\u2028\u2029]', ' ', docstring)
+
     publish_string(docstring, writer=writer, reader=reader,
                    settings_overrides={'report_level':10000,
                                        'halt_level':10000,
